@@ -121,6 +121,14 @@ Definition spec_op (g : list gopt) (pats : list bytes) (t : stab) (o : op) : sta
           | Some rt => ObsAnnot (last_sel (r_sel_annot k) (sr_opts rt) None)
           end)
   | OAccess key => (t, ObsSnap (option_map (spec_snapshot g) (slookup key t)))
+  | OLookup _ key adj _ =>
+      (* whichever entry point found the route and however (directly or by adjusting the trailing slash, whatever
+         the trailing-slash modes are): a handler of that route run on the context handed out is a route handler -
+         it sees the route and the route's resolver, and so do copies of that context *)
+      (t, match slookup key t with
+          | None => ObsLookupNone
+          | Some rt => let v := (res_cip (eff_resolver g rt), Some (sr_pattern rt)) in ObsLookup adj v v v (Some v)
+          end)
   end.
 
 Fixpoint spec_ops (g : list gopt) (pats : list bytes) (t : stab) (ops : list op) : list obs :=
